@@ -248,6 +248,9 @@ func (ex *Exec) equalValues(x, y Value) *Term {
 	case *Opaque:
 		b, _ := y.(*Opaque)
 		return Bool(a == b)
+	case *ModelObj:
+		b, _ := y.(*ModelObj)
+		return Bool(a == b)
 	}
 	panic(unsupported(fmt.Sprintf("equality on %T", x)))
 }
@@ -395,8 +398,15 @@ func (ex *Exec) load(p *Ptr, t types.Type) Value {
 	return copyValue(getAt(p.Obj.Val, p.Path))
 }
 
+func (ex *Exec) specWriteCheck(o *Object) {
+	if ex.specDepth > 0 && (o == nil || o.ID <= ex.specObjBase) {
+		panic(specAbort{})
+	}
+}
+
 func (ex *Exec) store(p *Ptr, v Value, t types.Type) {
 	ex.nilCheck(p)
+	ex.specWriteCheck(p.Obj)
 	ex.sched.access(p.Obj)
 	if p.Obj.RO {
 		panic(unsupported("store into string data"))
@@ -551,6 +561,7 @@ func (ex *Exec) readElem(s *SliceV, i *Term) Value {
 }
 
 func (ex *Exec) writeElem(s *SliceV, i *Term, v Value) {
+	ex.specWriteCheck(s.Obj)
 	ex.sched.access(s.Obj)
 	idx := Add(s.Off, i)
 	if s.Obj.RO {
@@ -729,6 +740,7 @@ func (ex *Exec) copySlices(dst, src *SliceV) *Term {
 	if n == BV(64, 0) {
 		return n
 	}
+	ex.specWriteCheck(dst.Obj)
 	ex.sched.access(dst.Obj)
 	ex.sched.access(src.Obj)
 	if dst.Obj.IsBytes {
@@ -904,6 +916,9 @@ func (ex *Exec) lookup(fr *Frame, in *ssa.Lookup) Value {
 func (ex *Exec) mapDelete(m *MapV, k Value) {
 	if m == nil {
 		return
+	}
+	if ex.specDepth > 0 {
+		panic(specAbort{})
 	}
 	e := ex.mapFind(m, k)
 	if e == nil {
